@@ -308,6 +308,12 @@ Theorem constify_keeps_immutable : forall v, imm v = true -> constify v = v.
 Proof. exact constify_id. Qed.
 Print Assumptions constify_keeps_immutable.
 
+(* finding: without the hypothesis `pre` the statement is false - objects unknown to constify
+   (dns.edns.Option inside an OPT record) stay mutable *)
+Theorem constify_immutable_refuted : exists v, hashable v = true /\ imm (constify v) = false.
+Proof. exact constify_opaque_refuted. Qed.
+Print Assumptions constify_immutable_refuted.
+
 (* ---------------- non-vacuity ---------------- *)
 
 (* two NS records that differ in the case of the target: distinct objects, equal, same hash *)
